@@ -49,16 +49,16 @@ for _p in ["C%02d" % i for i in range(1, 21)]:
 P("C05", "model_checking", native=True, kani={"timeout": "900s"},
   bounded="programs: depth profiles n<=3 (quick: d<=2 plus selected d=3; thorough: d<=3 plus n=4 samples), Option/Result sync and Result async; every (branch, step) failure flag and payload symbolic",
   unbounded="the transposer that turns the per-branch results into one Option/Result is r0.and_then(|r0| r1.and_then(|r1| .. rn.map(|rn| (all values)))) for ANY number of branches (generate_results_transposer, R13 desugaring of iter().rev().fold()): branch k is examined before every later one and the tuple is reached only when all succeeded; join_steps (module steps): in a transposing try macro the failure test of a step looks at exactly the ACTIVE branches in branch order, arm k hands back the failure of the k-th active branch with its payload untouched (r.map(|_| unreachable!())), and the next step sits ONLY in the else branch",
-  not_decided="thread / tokio schedules beyond the native sweeps; generate_steps (the fold over the steps) is outside Verus")
+  not_decided="thread / tokio schedules beyond the native sweeps; the run-time meaning of the emitted tokens is rustc's")
 
 P("C06", "model_checking", native=True, kani={"timeout": "900s"},
-  unbounded="the step structure the abort acts on: split_steps (see C03) and the transport of the `~` mark; the abort code of join_steps itself is decided by the bounded programs only",
+  unbounded="the step structure the abort acts on: split_steps (see C03) and the transport of the `~` mark; join_steps: the next step sits ONLY in the success continuation of the failure test; generate_steps: step k+1 is nested in that continuation of step k for any number of steps, so a failed step skips all later ones",
   bounded="same programs as C05; trace contract: exact event sequence of the staged reference (sync), no event of a step after the failing one (async)",
   not_decided="spawn kinds (threads / tokio tasks)")
 P("C04", "model_checking", native=True, kani={"timeout": "900s"},
   bounded="depth profiles n<=3 (+n=4 samples), d<=3; join!/try_join!/join_async!/try_join_async!, with then/map/and_then handlers and let patterns; values symbolic",
   unbounded="join_steps verified against a token-level spec (module steps): which branches a step checks / re-wraps / hands on, in which order, where the next step goes, the final tuple over ALL branches in branch order; the three index functions and the step destructuring: active_step_branch_count == #{i: depth_i > step} (R13 desugaring of iter/filter/count), step_results.k is indexed over active branches only, extract_results_tuple names exactly the active branches in branch order (R13 desugaring of the lazy filter with its counting closure) and hands ALL result names to the handler in branch order",
-  not_decided="tokio-spawn kinds beyond the native sweeps; generate_steps (the fold over the steps) is outside Verus")
+  not_decided="tokio-spawn kinds beyond the native sweeps; the glue of generate_step between its verified pieces")
 
 P("C09", "model_checking", native=True, kani={"timeout": "1200s"},
   unbounded="the tail of generate_step (R15 statement suffix): ALL step streams of a step go, in branch order, into ONE joiner invocation (futures_crate_path::join! / try_join! or the custom joiner) - the concurrency of a step rests on that macro; a step with one active branch is awaited directly",
